@@ -12,6 +12,7 @@ CASES = [
     ('memsim14', ['--profile', 'c10', '--maxfaults', '60']), ('memsim17', ['--profile', 'c10', '--maxfaults', '60']),
     ('memsim14', ['--profile', 'c01']), ('memsim17', ['--profile', 'c01']),
     ('iosimA', ['--mode', 'c11']), ('iosimB', ['--mode', 'c11']), ('iosimA', ['--mode', 'trunc']), ('iosimB', ['--mode', 'trunc']),
+    ('iosimA', ['--mode', 'fields']), ('iosimB', ['--mode', 'fields']),
     ('iosimA', ['--mode', 'c12']), ('iosimB', ['--mode', 'c12']), ('iosimA', ['--mode', 'c13']), ('iosimB', ['--mode', 'c13']),
 ]
 
